@@ -103,7 +103,7 @@ fn hist_def(property: &'static str, h: &'static Hist, rule: &'static str, quick:
         ],
         real_components: REAL,
         stub_components: STUB,
-        batches: vec![Batch { scenario: h, quick, thorough }, Batch { scenario: chaos_for(property), quick: 3_000, thorough: 150_000 }, Batch { scenario: exhaustive_for(property), quick: 0, thorough: 0 }],
+        batches: vec![Batch { scenario: h, quick, thorough }, Batch { scenario: chaos_for(property), quick: 6_000, thorough: 150_000 }, Batch { scenario: exhaustive_for(property), quick: 0, thorough: 0 }],
         extra: if property == "C08" { Some(twin08) } else { None },
     }
 }
